@@ -12,6 +12,16 @@
 //   ECOR n seed fid steps active sigma0
 //      -> "E0 v0 anc.." then per step "E unp pen val anc.. sigma"
 //   P n lo hi penalty c x_1..x_n      -> "P unp pen"
+//   CH n alpha beta L[n*n] v[n]       -> "CH L'[n*n]" | "CH EXC"   (cholesky_decomposition::update, see doChol)
+//   SCOR n lambda mu sigma0 seed fid steps                (CMSA::updatePopulation, Cholesky-factor covariance)
+//      -> per step "SU same=<0|1> perm=<0|1> | n lambda mu | cC | sigma | mean | L | offspring fit;x;step;sigma_i .. | sigma' | mean' | L' | best | bestpoint"
+//         (L, L': full n*n lower Cholesky factor, row major; "| EXC" replaces the post part if updatePopulation throws)
+//   CCOR n seed fid steps active sigma0                   (CMAChromosome updates inside ElitistCMA::step)
+//      -> per step "CU same=<0|1> | n | cp d ptarget cc ccov cu pthresh | active | ancestral window | penalized fitness
+//                   | L | pc | lastStep | lastZ | sigma psucc | L' | pc' | sigma' psucc'"     (pre = after mutate, post = after step; "| EXC" if step throws)
+//   VCOR n lambda mu sigma0 seed fid steps                (VDCMA::updateStrategyParameters)
+//      -> per step "VU same=<0|1> | n lambda mu | cC c1 cMu cSigma dSigma muEff | counter sigma | mean | D | vn | normv | pc | ps | weights
+//                   | offspring fit;x;y .. | sigma' | mean' | D' | vn' | normv' | pc' | ps' | best | bestpoint"
 #include <cstdio>
 #include <cstdlib>
 #include <cstring>
@@ -266,6 +276,183 @@ static void doEcor(std::istringstream& is, std::ostream& out) {
 	out << "END\n";
 }
 
+// ------------------------------------------------------------------------------------------------ CMSA
+template <class M> static bool sameMat(M const& A, M const& B) {
+	if (A.size1() != B.size1() || A.size2() != B.size2()) return false;
+	for (std::size_t i = 0; i < A.size1(); ++i) for (std::size_t j = 0; j < A.size2(); ++j) if (A(i, j) != B(i, j)) return false;
+	return true;
+}
+template <class V> static bool sameVec(V const& a, V const& b) {
+	if (a.size() != b.size()) return false;
+	for (std::size_t i = 0; i < a.size(); ++i) if (a(i) != b(i)) return false;
+	return true;
+}
+static bool sameCmsa(CMSA const& a, CMSA const& b) {
+	return a.m_sigma == b.m_sigma && sameVec(a.m_mean, b.m_mean)
+	    && sameMat(a.m_mutationDistribution.lowerCholeskyFactor(), b.m_mutationDistribution.lowerCholeskyFactor())
+	    && a.solution().value == b.solution().value && sameVec(a.solution().point, b.solution().point);
+}
+
+static void doScor(std::istringstream& is, std::ostream& out) {
+	std::size_t n, lambda, mu; double sigma0; unsigned seed; int fid; int steps;
+	is >> n >> lambda >> mu >> sigma0 >> seed >> fid >> steps;
+	try {
+		Obj f(fid, n, 1.0), g(fid, n, 1.0);
+		random::rng_type rngA, rngB;
+		random::globalRng.seed(seed + 7919);
+		RealVector start = f.proposeStartingPoint();
+		rngA.seed(seed); rngB.seed(seed);
+		CMSA a(rngA), b(rngB);   // a: step(); b: generate/evaluate/update; c (copy of b per step): update on the REVERSED offspring array
+		if (lambda) { a.setLambda(lambda); b.setLambda(lambda); }
+		if (mu) { a.setMu(mu); b.setMu(mu); }
+		if (sigma0 > 0) { a.setInitialSigma(sigma0); b.setInitialSigma(sigma0); }
+		a.init(f, start); b.init(g, start);
+		for (int t = 0; t < steps; ++t) {
+			std::ostringstream l;
+			l << " | " << n << " " << b.m_lambda << " " << b.m_mu << " | " << hx(b.m_cC) << " | " << hx(b.m_sigma) << " | " << hv(b.m_mean)
+			  << " | " << hm(b.m_mutationDistribution.lowerCholeskyFactor()) << " |";
+			bool aThrew = false, bThrew = false, cThrew = false;
+			try { a.step(f); } catch (std::exception const&) { aThrew = true; }
+			std::vector<CMSA::IndividualType> off = b.generateOffspring();
+			PenalizingEvaluator ev;
+			ev(g, off.begin(), off.end());
+			for (std::size_t i = 0; i < off.size(); ++i)
+				l << " " << hx(off[i].unpenalizedFitness()) << ";" << hv(off[i].searchPoint()) << ";" << hv(off[i].chromosome().step) << ";" << hx(off[i].chromosome().sigma);
+			CMSA c(b);
+			try { b.updatePopulation(off); } catch (std::exception const&) { bThrew = true; }
+			std::vector<CMSA::IndividualType> rev(off.rbegin(), off.rend());
+			try { c.updatePopulation(rev); } catch (std::exception const&) { cThrew = true; }
+			if (bThrew) {
+				out << "SU same=" << (aThrew ? 1 : 0) << " perm=" << (cThrew ? 1 : 0) << l.str() << " | EXC\n";
+				break;     // the factor is half-updated after the throw; nothing meaningful follows
+			}
+			l << " | " << hx(b.m_sigma) << " | " << hv(b.m_mean) << " | " << hm(b.m_mutationDistribution.lowerCholeskyFactor())
+			  << " | " << hx(b.solution().value) << " | " << hv(b.solution().point);
+			out << "SU same=" << ((!aThrew && sameCmsa(a, b)) ? 1 : 0) << " perm=" << ((!cThrew && sameCmsa(b, c)) ? 1 : 0) << l.str() << "\n";
+		}
+	} catch (std::exception const& e) { out << "EXC " << e.what() << "\n"; }
+	out << "END\n";
+}
+
+// ------------------------------------------------------------------------------------------------ CMAChromosome inside ElitistCMA
+static void doCcor(std::istringstream& is, std::ostream& out) {
+	std::size_t n; unsigned seed; int fid, steps, active; double sigma0;
+	is >> n >> seed >> fid >> steps >> active >> sigma0;
+	try {
+		Obj f(fid, n, 1.0);
+		random::globalRng.seed(seed + 7919);
+		RealVector start = f.proposeStartingPoint();
+		random::globalRng.seed(seed);
+		ElitistCMA o; o.activeUpdate() = active != 0;
+		o.init(f, start); if (sigma0 > 0) o.sigma() = sigma0;
+		for (int t = 0; t < steps; ++t) {
+			ElitistCMA b(o);                                   // twin: same state, same generator (the global one)
+			random::rng_type saved = random::globalRng;
+			bool threw = false;
+			try { o.step(f); } catch (std::exception const&) { threw = true; }
+			random::rng_type after = random::globalRng;
+			random::globalRng = saved;
+			// exactly the first two statements of ElitistCMA::step
+			b.m_individual.mutate(*b.mpe_rng);
+			b.m_evaluator(f, b.m_individual);
+			random::globalRng = after;
+			CMAChromosome const& p = b.m_individual.chromosome();
+			CMAChromosome const& q = o.m_individual.chromosome();
+			bool same = sameVec(p.m_lastStep, q.m_lastStep) && sameVec(p.m_lastZ, q.m_lastZ);   // the twin drew the same mutation
+			out << "CU same=" << (same ? 1 : 0) << " | " << n
+			    << " | " << hx(p.m_stepSizeLearningRate) << " " << hx(p.m_stepSizeDampingFactor) << " " << hx(p.m_targetSuccessProbability) << " " << hx(p.m_evolutionPathLearningRate)
+			    << " " << hx(p.m_covarianceMatrixLearningRate) << " " << hx(p.m_covarianceMatrixUnlearningRate) << " " << hx(p.m_successThreshold)
+			    << " | " << (b.m_activeUpdate ? 1 : 0) << " |";
+			for (std::size_t i = 0; i < b.m_ancestralFitness.size(); ++i) out << " " << hx(b.m_ancestralFitness[i]);
+			out << " | " << hx(b.m_individual.penalizedFitness())
+			    << " | " << hm(p.m_mutationDistribution.lowerCholeskyFactor()) << " | " << hv(p.m_evolutionPath) << " | " << hv(p.m_lastStep) << " | " << hv(p.m_lastZ)
+			    << " | " << hx(p.m_stepSize) << " " << hx(p.m_successProbability);
+			if (threw) { out << " | EXC\n"; break; }
+			out << " | " << hm(q.m_mutationDistribution.lowerCholeskyFactor()) << " | " << hv(q.m_evolutionPath)
+			    << " | " << hx(q.m_stepSize) << " " << hx(q.m_successProbability) << "\n";
+		}
+	} catch (std::exception const& e) { out << "EXC " << e.what() << "\n"; }
+	out << "END\n";
+}
+
+// ------------------------------------------------------------------------------------------------ VDCMA
+static bool sameVd(VDCMA const& a, VDCMA const& b) {
+	return a.m_sigma == b.m_sigma && a.m_normv == b.m_normv && a.m_counter == b.m_counter && sameVec(a.m_mean, b.m_mean) && sameVec(a.m_D, b.m_D) && sameVec(a.m_vn, b.m_vn)
+	    && sameVec(a.m_evolutionPathC, b.m_evolutionPathC) && sameVec(a.m_evolutionPathSigma, b.m_evolutionPathSigma);
+}
+
+static void doVcor(std::istringstream& is, std::ostream& out) {
+	std::size_t n, lambda, mu; double sigma0; unsigned seed; int fid; int steps;
+	is >> n >> lambda >> mu >> sigma0 >> seed >> fid >> steps;
+	try {
+		Obj f(fid, n, 1.0);
+		random::rng_type rng;
+		random::globalRng.seed(seed + 7919);
+		RealVector start = f.proposeStartingPoint();
+		rng.seed(seed);
+		VDCMA o(rng);
+		if (sigma0 > 0) o.setInitialSigma(sigma0);
+		if (lambda && mu) o.init(f, start, lambda, mu, sigma0 > 0 ? sigma0 : 1.0 / std::sqrt(double(n))); else o.init(f, start);
+		typedef Individual<RealVector, double, RealVector> IndividualType;
+		for (int t = 0; t < steps; ++t) {
+			VDCMA b(o);                                         // twin: same state, same generator object
+			random::rng_type saved = rng;
+			std::ostringstream l;
+			l << " | " << n << " " << b.m_lambda << " " << b.m_mu
+			  << " | " << hx(b.m_cC) << " " << hx(b.m_c1) << " " << hx(b.m_cMu) << " " << hx(b.m_cSigma) << " " << hx(b.m_dSigma) << " " << hx(b.m_muEff)
+			  << " | " << b.m_counter << " " << hx(b.m_sigma) << " | " << hv(b.m_mean) << " | " << hv(b.m_D) << " | " << hv(b.m_vn) << " | " << hx(b.m_normv)
+			  << " | " << hv(b.m_evolutionPathC) << " | " << hv(b.m_evolutionPathSigma) << " | " << hv(b.m_weights) << " |";
+			// VDCMA::step by hand on the twin
+			std::vector<IndividualType> off(b.m_lambda);
+			PenalizingEvaluator ev;
+			// createSample of the first offspring once more with the same generator state, and the normal draws it consumed
+			RealVector sx, sy, sz(n);
+			{ random::rng_type keep = rng; b.createSample(sx, sy); rng = keep; for (std::size_t i = 0; i < n; ++i) sz(i) = random::gauss(rng, 0, 1); rng = keep; }
+			for (std::size_t i = 0; i < off.size(); ++i) b.createSample(off[i].searchPoint(), off[i].chromosome());
+			ev(f, off.begin(), off.end());
+			for (std::size_t i = 0; i < off.size(); ++i) l << " " << hx(off[i].unpenalizedFitness()) << ";" << hv(off[i].searchPoint()) << ";" << hv(off[i].chromosome());
+			std::vector<IndividualType> parents(b.m_mu);
+			ElitistSelection<IndividualType::FitnessOrdering> selection;
+			selection(off.begin(), off.end(), parents.begin(), parents.end());
+			b.m_counter++;
+			b.updateStrategyParameters(parents);
+			rng = saved;
+			o.step(f);                                          // draws the same offspring
+			l << " | " << hx(o.m_sigma) << " | " << hv(o.m_mean) << " | " << hv(o.m_D) << " | " << hv(o.m_vn) << " | " << hx(o.m_normv)
+			  << " | " << hv(o.m_evolutionPathC) << " | " << hv(o.m_evolutionPathSigma) << " | " << hx(o.solution().value) << " | " << hv(o.solution().point)
+			  << " | " << hv(sz) << " | " << hv(sx) << " | " << hv(sy) << " | " << ((hv(sx) == hv(off[0].searchPoint()) && hv(sy) == hv(off[0].chromosome())) ? 1 : 0);
+			out << "VU same=" << (sameVd(o, b) ? 1 : 0) << l.str() << "\n";
+		}
+	} catch (std::exception const& e) { out << "EXC " << e.what() << "\n"; }
+	out << "END\n";
+}
+
+// CH n alpha beta L[n*n row major, lower triangular] v[n]  ->  "CH L'[n*n]"  |  "CH EXC"
+// remora cholesky_decomposition::update(alpha, beta, v) through MultiVariateNormalDistributionCholesky::rankOneUpdate.
+// The factor is installed by setCovarianceMatrix(L L^T); the generator only uses small integer entries with powers of two on the
+// diagonal, for which L L^T and its factorisation are exact (checked: "CH BADL" otherwise).
+static void doChol(std::istringstream& is, std::ostream& out) {
+	std::size_t n; is >> n;
+	std::string tok; std::vector<double> v;
+	while (is >> tok) v.push_back(std::strtod(tok.c_str(), 0));
+	double alpha = v[0], beta = v[1];
+	RealMatrix L(n, n, 0.0); RealVector w(n);
+	for (std::size_t i = 0; i < n; ++i) for (std::size_t j = 0; j < n; ++j) L(i, j) = v[2 + i * n + j];
+	for (std::size_t i = 0; i < n; ++i) w(i) = v[2 + n * n + i];
+	RealMatrix C(n, n, 0.0);
+	for (std::size_t i = 0; i < n; ++i) for (std::size_t j = 0; j < n; ++j) { double s = 0; for (std::size_t k = 0; k < n; ++k) s += L(i, k) * L(j, k); C(i, j) = s; }
+	MultiVariateNormalDistributionCholesky d;
+	d.setCovarianceMatrix(C);
+	for (std::size_t i = 0; i < n; ++i) for (std::size_t j = 0; j <= i; ++j) if (d.lowerCholeskyFactor()(i, j) != L(i, j)) { out << "CH BADL\n"; return; }
+	try {
+		d.rankOneUpdate(alpha, beta, w);
+		RealMatrix R(n, n, 0.0);
+		for (std::size_t i = 0; i < n; ++i) for (std::size_t j = 0; j <= i; ++j) R(i, j) = d.lowerCholeskyFactor()(i, j);
+		out << "CH " << hm(R) << "\n";
+	} catch (std::invalid_argument const&) { out << "CH EXC\n"; }
+	catch (std::exception const& e) { out << "CH STDEXC " << e.what() << "\n"; }
+}
+
 static void doPen(std::istringstream& is, std::ostream& out) {
 	std::size_t n; double lo, hi, pen, c;
 	is >> n;
@@ -298,6 +485,10 @@ int main(int argc, char** argv) {
 		else if (cmd == "COR") doCor(is, out);
 		else if (cmd == "ECOR") doEcor(is, out);
 		else if (cmd == "P") doPen(is, out);
+		else if (cmd == "SCOR") doScor(is, out);
+		else if (cmd == "CCOR") doCcor(is, out);
+		else if (cmd == "VCOR") doVcor(is, out);
+		else if (cmd == "CH") doChol(is, out);
 		else out << "?\n";
 		std::cout << out.str() << std::flush;
 	}
